@@ -2385,6 +2385,18 @@ private:
 
       DataArray <int>& colscaleExp = LPColSetBase<R>::scaleExp;
 
+      // create new columns if required; this must happen before their scaling exponents are read
+      for(int j = vec.size() - 1; j >= 0; --j)
+      {
+         if(vec.index(j) >= nCols())
+         {
+            LPColBase<R> empty;
+
+            for(int k = nCols(); k <= vec.index(j); ++k)
+               LPColSetBase<R>::add(empty);
+         }
+      }
+
       // compute new row scaling factor and apply it to the sides
       if(scale && lp_scaler)
       {
@@ -2440,6 +2452,18 @@ private:
       LPRowSetBase<R>::add(lhsValue, rowVec, rhsValue);
 
       DataArray <int>& colscaleExp = LPColSetBase<R>::scaleExp;
+
+      // create new columns if required; this must happen before their scaling exponents are read
+      for(int j = rowVec.size() - 1; j >= 0; --j)
+      {
+         if(rowVec.index(j) >= nCols())
+         {
+            LPColBase<R> empty;
+
+            for(int k = nCols(); k <= rowVec.index(j); ++k)
+               LPColSetBase<R>::add(empty);
+         }
+      }
 
       // compute new row scaling factor and apply it to the sides
       if(scale)
@@ -2618,6 +2642,18 @@ private:
 
       DataArray <int>& rowscaleExp = LPRowSetBase<R>::scaleExp;
 
+      // create new rows if required; this must happen before their scaling exponents are read
+      for(int j = vec.size() - 1; j >= 0; --j)
+      {
+         if(vec.index(j) >= nRows())
+         {
+            LPRowBase<R> empty;
+
+            for(int k = nRows(); k <= vec.index(j); ++k)
+               LPRowSetBase<R>::add(empty);
+         }
+      }
+
       // compute new column scaling factor and apply it to the bounds
       if(scale)
       {
@@ -2676,6 +2712,18 @@ private:
          LPColSetBase<R>::maxObj_w(idx) *= -1;
 
       DataArray <int>& rowscaleExp = LPRowSetBase<R>::scaleExp;
+
+      // create new rows if required; this must happen before their scaling exponents are read
+      for(int j = colVec.size() - 1; j >= 0; --j)
+      {
+         if(colVec.index(j) >= nRows())
+         {
+            LPRowBase<R> empty;
+
+            for(int k = nRows(); k <= colVec.index(j); ++k)
+               LPRowSetBase<R>::add(empty);
+         }
+      }
 
       // compute new column scaling factor and apply it to the bounds
       if(scale)
